@@ -433,6 +433,12 @@ func TestC09(t *testing.T) {
 				rig.RunCase(t, seed, rig.Opts{Trace: true}, func(e *rig.Env) {
 					st := runC09Op(e, op, v)
 					dump0 := must(rig.TakeDump(e.RawDB()))
+					var lateCancels []context.CancelFunc
+					defer func() {
+						for _, c := range lateCancels {
+							c()
+						}
+					}()
 					for k := 1; k < 400; k++ {
 						obs := watch(dump0)
 						commits := 0
@@ -450,7 +456,15 @@ func TestC09(t *testing.T) {
 						hit := seam.C.FaultHits() > 0
 						seam.C.SetFault(nil)
 						seam.C.SetBoundaryObserver(nil)
-						cancel()
+						if mode == seam.FaultError && (op.class == "unit" || op.class == "pull") {
+							// a request context that outlives the failed attempt (as a
+							// service's or a connection's does): database/sql rolls an
+							// abandoned transaction back when its context ends, which would
+							// hide a transaction that the failed attempt left open
+							lateCancels = append(lateCancels, cancel)
+						} else {
+							cancel()
+						}
 						rig.Quiesce()
 						dump1 := must(rig.TakeDump(e.RawDB()))
 						closed := obs.closedAndCancel()
